@@ -719,6 +719,49 @@ func (p *Prog) ComputeInitOnly() {
 			p.InitOnly[k] = true
 		}
 	}
+	// map types whose maps are only ever filled by the function that created them (or that created the
+	// object holding them): an existing map of such a type is not changed by a call or a loop
+	mapSeen := map[string]bool{}
+	mapEsc := map[string]bool{}
+	localMap := func(v ssa.Value, fn *ssa.Function) bool {
+		switch x := v.(type) {
+		case *ssa.MakeMap:
+			return true
+		case *ssa.UnOp:
+			if fa, ok := x.X.(*ssa.FieldAddr); ok {
+				if al, ok := fa.X.(*ssa.Alloc); ok && al.Parent() == fn {
+					return true
+				}
+			}
+		}
+		return false
+	}
+	for _, fn := range p.FuncList {
+		for _, b := range fn.Blocks {
+			for _, in := range b.Instrs {
+				switch x := in.(type) {
+				case *ssa.MapUpdate:
+					k := p.mapKey(x.Map.Type().Underlying().(*types.Map))
+					mapSeen[k] = true
+					if !localMap(x.Map, fn) {
+						mapEsc[k] = true
+					}
+				case ssa.CallInstruction:
+					if bi, ok := x.Common().Value.(*ssa.Builtin); ok && (bi.Name() == "delete" || bi.Name() == "clear") {
+						if mt, ok := x.Common().Args[0].Type().Underlying().(*types.Map); ok {
+							mapEsc[p.mapKey(mt)] = true
+						}
+					}
+				}
+			}
+		}
+	}
+	for k := range mapSeen {
+		if !mapEsc[k] {
+			p.InitOnly[mapHasKey(k)] = true
+			p.InitOnly[mapValKey(k)] = true
+		}
+	}
 }
 
 // ComputeAppendOnly: element types whose slice elements are never overwritten in place
